@@ -114,3 +114,25 @@ pub(crate) fn log_line(line: &[u8]) {
         }
     });
 }
+
+thread_local! {
+    static STEPS: std::cell::Cell<u64> = std::cell::Cell::new(0);
+}
+
+/// One unit of work: called as the first statement of the loop bodies that scan input
+/// (parser, scanners, string helpers, renderers) and at the top of `Subject::parse_inline`.
+/// A deterministic, machine-independent cost counter (per thread).
+#[inline]
+pub fn step() {
+    STEPS.with(|s| s.set(s.get().wrapping_add(1)));
+}
+
+/// Units of work counted on this thread since the last `steps_reset`.
+pub fn steps() -> u64 {
+    STEPS.with(|s| s.get())
+}
+
+/// Reset this thread's work counter to zero.
+pub fn steps_reset() {
+    STEPS.with(|s| s.set(0));
+}
